@@ -1064,3 +1064,27 @@ m('c04-sci-zero-literal-original', ['C04'], 'point-and-exponent[zero]', [
 
 """)],
   'the original: every zero written as "0e0" in scientific notation (fixed in 8616111)')
+m('c02-eq-zip-length-only-lt', ['C02', 'C03', 'C19'], 'ZIP-LENGTH', [
+  ('src/impl_cmp.rs', """    if overlap_digits.len() != scaled_digits.len() {""", """    if overlap_digits.len() < scaled_digits.len() {""")],
+  'digit-wise equality guarded by a one-sided length test: a proper prefix compares equal')
+m('c14-to-f64-division-fast-path', ['C14'], 'FLOAT-PATH', [
+  ('src/impl_num.rs', """            Some(exp) => {
+                // format decimal as floating point and let the default parser generate the f64""", """            Some(pow) if -15 <= pow => {
+                let f = int_cow.to_f64().map(copy_sign_to_float)?;
+                (f / powi(10.0, -pow)).into()
+            }
+            Some(exp) => {
+                // format decimal as floating point and let the default parser generate the f64""")],
+  'to_f64 divides the converted integer by a power of ten for small positive scales: double rounding')
+m('c01-mulassign-negate-shortcut-on-unsigned', ['C01', 'C19'], 'MulAssign<u', [
+  ('src/impl_ops.rs', """                } else if rhs.is_one() {
+                    // no-op
+                } else {
+                    *self *= BigDecimal::from(rhs);""", """                } else if rhs.is_one() {
+                    // no-op
+                } else if rhs.wrapping_neg().is_one() {
+                    let int_val = stdlib::mem::replace(&mut self.int_val, BigInt::zero());
+                    self.int_val = -int_val;
+                } else {
+                    *self *= BigDecimal::from(rhs);""")],
+  '*= -1 shortcut written with wrapping_neg in a macro that is also instantiated for unsigned types (MAX.wrapping_neg() == 1)')
